@@ -58,6 +58,9 @@ def output_text_report(tex, plain, charmap, matches, file, out):
         txt = json_get(cont, 'text', str)
         beg = json_get(cont, 'offset', int)
         length = json_get(cont, 'length', int)
+        # keep the marks inside of the excerpt
+        beg = min(max(beg, 0), len(txt))
+        length = min(max(length, 0), len(txt) - beg)
         out.write(txt.replace('\t', ' ') + '\n')
         out.write(' ' * beg + '^' * length + '\n')
 
